@@ -20,7 +20,7 @@ META = {
                  'beads on a line with real coordinates; separation 0..3, decay power 0/1/2, domain = molecule/chain/residue '
                  'regions (symbolic region bounds), 3 insertion orders; lower/upper bound, decay factor, base constant, minimum '
                  'force real-valued; translation + reversed/permuted atom order; NaN coordinate',
-        'thorough': '<= 5 selected beads, all layouts x separations x powers x domains',
+        'thorough': '<= 5 selected beads (separation >= 2), half of the layout x separation x power x domain x order combinations (all of them for the linear 4-bead chain)',
     },
     'stubs': ['apply_rubber_band.LOGGER -> recorder of (level, type)',
               'numpy on proxies: sqrt exact (y>=0, y*y=t), exp = fresh positive variable per argument with strict monotonicity '
@@ -385,8 +385,12 @@ def cases(tier):
                             beads = LAYOUTS[layout]['beads']
                             allowed = sum(1 for i, j in itertools.combinations(selected, 2)
                                           if gd[beads[i][0]].get(beads[j][0], 10 ** 6) > sep)
-                            if tier == 'quick' and allowed >= 6 and power >= 1:
-                                continue        # 64 paths of heavier NRA queries (100-300 s): thorough tier only
+                            if allowed >= 6 and power >= 1 and (tier == 'quick' or layout != 'lin4' or order != 'asc'):
+                                continue        # 64 paths of heavier NRA queries (100-300 s each): thorough tier, lin4/asc only
+                            if layout == 'lin5' and sep < 2:
+                                continue        # 5 selected beads with <= 1 separation: up to 1024 paths
+                            if tier == 'thorough' and (k + sep) % 2 != 0 and layout != 'lin4':
+                                continue
                             part = dict(layout=layout, selected=selected, sep=sep, power=power, domain=domain, order=order,
                                         sep_from_ff=(k % 5 == 0), old_resid=(domain == 'regions' and k % 2 == 0))
                             out.append({'fn': 'run_network', 'engine': 'sn', 'part': part, 'timeout': 600,
